@@ -75,15 +75,19 @@ fn start_db(
         Sender<String>,
         Receiver<String>,
     ) = channel(100);
-    let keys_map = disk_ops::load_keys_map_from_disk();
-    let is_oplog_valid = disk_ops::is_oplog_valid();
-
-    if is_oplog_valid {
+    let is_oplog_valid = if disk_ops::is_oplog_valid() {
         log::debug!("All fine with op-log metadafiles");
+        true
     } else {
         log::warn!("Nun-db has restarted with op-log in a invalid state, oplog and keys metadafile will be deleted!");
         disk_ops::Oplog::clean_op_log_metadata_files();
-    }
+        // The clean removed the flag file (an absent flag reads as valid), the oplog and the keys
+        // map: the empty log is valid again. Starting as "invalid" in memory would skip the write
+        // of the flag for the first new key, leaving disk = valid with a keys map that lacks it.
+        true
+    };
+    // Loaded after the clean, so a discarded keys map is not carried into the new log
+    let keys_map = disk_ops::load_keys_map_from_disk();
 
     let dbs = nundb::db_ops::create_init_dbs(
         user.to_string(),
